@@ -269,7 +269,7 @@ impl Ctx {
         }
         let seed = std::env::var("VERIF_SEED").ok().and_then(|s| s.parse().ok()).unwrap_or(0);
         let threads = std::env::var("VERIF_THREADS").ok().and_then(|s| s.parse().ok()).unwrap_or_else(|| std::thread::available_parallelism().map(|n| n.get()).unwrap_or(8));
-        let wall_cap_s = std::env::var("VERIF_WALL_CAP_S").ok().and_then(|s| s.parse().ok()).unwrap_or(if tier == Tier::Quick { 150.0 } else { 6.0 * 3600.0 });
+        let wall_cap_s = std::env::var("VERIF_WALL_CAP_S").ok().and_then(|s| s.parse().ok()).unwrap_or(if tier == Tier::Quick { 900.0 } else { 8.0 * 3600.0 });
         let out_dir = PathBuf::from(std::env::var("VERIF_OUT").unwrap_or_else(|_| "/verif".into()));
         Ctx { id: id.into(), level, tier, seed, replay, only_family, threads, start: Instant::now(), wall_cap_s, out_dir, families: vec![], required: vec![], assumptions: vec![], machinery: vec![], extra: BTreeMap::new() }
     }
